@@ -1,13 +1,79 @@
-(** C20 - property theorems only. *)
+(** C20 - property theorems only.  Each is closed by [exact] and followed by [Print Assumptions]. *)
 From Coq Require Import ZArith List.
 From CB Require Import Crypto.Wnaf.
+From CB Require Import Crypto.WnafProofs.
 Import ListNotations.
 Local Open Scope Z_scope.
 
+(** ** wNAF recoding ([GenericMultiExp::multiexp], first half) *)
+
+(** For every window size the code admits (1 <= w < 62), every vector of 64-bit limbs whose top
+    bit is clear: the digit vector encodes the integer value of the scalar. *)
+Theorem wnaf_sum : forall w ls, 1 <= w < 62 -> wf_limbs ls ->
+  limbs_val ls < 2 ^ (64 * Z.of_nat (length ls) - 1) ->
+  digits_val (wnaf w ls) = limbs_val ls.
+Proof. exact wnaf_sum_lemma. Qed.
+Print Assumptions wnaf_sum.
+
 (** The side condition of [wnaf_sum] is necessary: for the all-ones 256-bit limb vector the
-    final carry is lost (the digit vector evaluates to -1 instead of 2^256 - 1). *)
+    final carry is lost (the digit vector evaluates to -1 instead of 2^256 - 1).  Reduced scalars
+    never have the top bit set (r < 2^255, l < 2^253). *)
 Theorem wnaf_sum_top_bit_example :
+  wf_limbs (to_limbs 4 (2 ^ 256 - 1)) /\
   limbs_val (to_limbs 4 (2 ^ 256 - 1)) = 2 ^ 256 - 1 /\
   digits_val (wnaf 4 (to_limbs 4 (2 ^ 256 - 1))) = -1.
-Proof. split; vm_compute; reflexivity. Qed.
+Proof. split; [repeat constructor; vm_compute; intuition discriminate|split; vm_compute; reflexivity]. Qed.
 Print Assumptions wnaf_sum_top_bit_example.
+
+(** Every non-zero digit is odd and |d| < 2^w. *)
+Theorem wnaf_digit_bounds : forall w ls, 1 <= w < 62 -> wf_limbs ls ->
+  Forall (fun d => d = 0 \/ (Z.odd d = true /\ - 2 ^ w < d < 2 ^ w)) (wnaf w ls).
+Proof. exact wnaf_digit_bounds_lemma. Qed.
+Print Assumptions wnaf_digit_bounds.
+
+(** ... hence [d / 2] indexes the table of odd multiples in range. *)
+Theorem wnaf_table_index_in_range : forall (G : Type) (gadd : G -> G -> G) w ls g d,
+  1 <= w < 62 -> wf_limbs ls -> In d (wnaf w ls) -> d <> 0 ->
+  Z.odd d = true /\ (Z.to_nat (Z.quot (Z.abs d) 2) < length (table G gadd w g))%nat.
+Proof. exact @wnaf_table_index_lemma. Qed.
+Print Assumptions wnaf_table_index_in_range.
+
+(** If the scalar is below 2^nb, every digit at an index above nb is zero: the evaluation loop
+    [for j in (0..=NUM_BITS).rev()] visits every non-zero digit. *)
+Theorem wnaf_top : forall w ls nb, 1 <= w < 62 -> wf_limbs ls -> 0 <= nb ->
+  limbs_val ls < 2 ^ nb ->
+  forall j, (Z.to_nat nb < j)%nat -> nth j (wnaf w ls) 0 = 0.
+Proof. exact wnaf_top_lemma. Qed.
+Print Assumptions wnaf_top.
+
+(** ** Multi-exponentiation *)
+
+(** In every abelian group (laws: [abelian_group_laws]), for every window size, all vectors of
+    points (any length, repeated and identity points included) and all vectors of scalars that are
+    below 2^NUM_BITS with NUM_BITS < 64 * limbs: [multiexp] returns the sum of the scalar
+    multiples [limbs_val s_i * g_i] over the zipped inputs ([msum], [zmul]). *)
+Theorem multiexp_correct : forall (G : Type) (gzero : G) (gadd gsub : G -> G -> G) (gdbl gneg : G -> G),
+  abelian_group_laws gzero gadd gsub gdbl gneg ->
+  forall w field_bits gs ss, 1 <= w < 62 ->
+    Forall (fun s => wf_limbs s /\ limbs_val s < 2 ^ Z.of_nat field_bits
+                     /\ Z.of_nat field_bits < 64 * Z.of_nat (length s)) ss ->
+    multiexp G gzero gadd gsub gdbl w field_bits gs ss
+    = msum G gzero gadd gneg limbs_val (combine ss gs).
+Proof. exact multiexp_correct_lemma. Qed.
+Print Assumptions multiexp_correct.
+
+(** Non-vacuity: the hypotheses hold for the integers with the default window and the largest
+    BLS12-381 scalar r - 1 (NUM_BITS = 255, 4 limbs), and the conclusion computes r - 1 times 5. *)
+Example multiexp_correct_nonvacuous :
+  abelian_group_laws 0 Z.add Z.sub (fun a => a + a) Z.opp /\
+  (let s := to_limbs 4 52435875175126190479447740508185965837690552500527637822603658699938581184512 in
+   wf_limbs s /\ limbs_val s < 2 ^ Z.of_nat 255 /\ Z.of_nat 255 < 64 * Z.of_nat (length s)
+   /\ multiexp Z 0 Z.add Z.sub (fun a => a + a) 4 255 [5] [s]
+      = 5 * 52435875175126190479447740508185965837690552500527637822603658699938581184512).
+Proof.
+  split.
+  - unfold abelian_group_laws. repeat split; intros; ring.
+  - cbv zeta. split; [repeat constructor; vm_compute; intuition discriminate|].
+    split; [vm_compute; reflexivity|]. split; [vm_compute; reflexivity|]. vm_compute. reflexivity.
+Qed.
+Print Assumptions multiexp_correct_nonvacuous.
